@@ -12,6 +12,31 @@ import OQuPyVerif.Model.PTFile
 namespace OQuPyVerif.PTFile.Wire
 open OQuPyVerif.Proto OQuPyVerif.PTFile
 
+/-! text travels as "h" + hex of its UTF-8 bytes -/
+def hexDigit (n : Nat) : Char := if n < 10 then Char.ofNat (48 + n) else Char.ofNat (87 + n)
+
+def hexEncode (s : String) : String :=
+  "h" ++ String.ofList (s.toUTF8.toList.flatMap
+    (fun b => [hexDigit (b.toNat / 16), hexDigit (b.toNat % 16)]))
+
+def hexVal? (c : Char) : Option Nat :=
+  if '0' ≤ c ∧ c ≤ '9' then some (c.toNat - 48)
+  else if 'a' ≤ c ∧ c ≤ 'f' then some (c.toNat - 87) else none
+
+def hexPairs? : List Char → Option (List UInt8)
+  | [] => some []
+  | a :: b :: r => do
+    let x ← hexVal? a
+    let y ← hexVal? b
+    let t ← hexPairs? r
+    pure (UInt8.ofNat (x * 16 + y) :: t)
+  | _ => none
+
+def hexDecode? (s : String) : Option String :=
+  match s.toList with
+  | 'h' :: r => (hexPairs? r).bind (fun bs => String.fromUTF8? (ByteArray.mk bs.toArray))
+  | _ => none
+
 def parseEntry? (s : String) : Option Entry :=
   if s == "nan" then some Entry.nan else
   match s.splitOn "," with
@@ -53,6 +78,18 @@ def parseCmd? (s : String) : Option Cmd :=
 def parseCmds? (s : String) : Option (List Cmd) :=
   if s == "-" then some [] else (s.splitOn "|").mapM parseCmd?
 
+/-- `N@<text|None>` / `D@<text|None>` = assignment to `.name` / `.description`; otherwise a tensor call -/
+def parseMCmd? (s : String) : Option MCmd :=
+  match s.splitOn "@" with
+  | ["N", v] => if v == "None" then some (MCmd.setName none)
+                else (hexDecode? v).map (fun t => MCmd.setName (some t))
+  | ["D", v] => if v == "None" then some (MCmd.setDescription none)
+                else (hexDecode? v).map (fun t => MCmd.setDescription (some t))
+  | _ => (parseCmd? s).map MCmd.tensor
+
+def parseMCmds? (s : String) : Option (List MCmd) :=
+  if s == "-" then some [] else (s.splitOn "|").mapM parseMCmd?
+
 def kv (ws : List String) (k : String) : Option String :=
   ws.findSome? (fun w => if w.startsWith (k ++ "=") then some (w.drop (k.length + 1)).copy else none)
 
@@ -73,8 +110,8 @@ def parseMeta? (ws : List String) : Option Meta := do
   let dt ← parseOptRat? (← kv ws "dt")
   let tin ← parseOpt? (← kv ws "tin")
   let tout ← parseOpt? (← kv ws "tout")
-  let name ← kv ws "name"
-  let descr ← kv ws "descr"
+  let name ← hexDecode? (← kv ws "name")
+  let descr ← hexDecode? (← kv ws "descr")
   pure ⟨hs, dt, tin, tout, name, descr⟩
 
 def parseSimple? (ws : List String) : Option SimplePT := do
@@ -116,7 +153,7 @@ def showRowsN (l : Option (List (List Nat))) : String :=
 
 def showOStr : Option String → String
   | none => "absent"
-  | some s => s
+  | some s => hexEncode s
 
 def showOT : Option Tensor → String
   | none => "absent"
@@ -187,7 +224,7 @@ def showBonds : Option (List Nat) → String
   | some l => ",".intercalate (l.map toString)
 
 def showMeta (m : Meta) : String :=
-  s!"hs={m.hsDim} dt={showOptRat m.dt} tin={showOpt m.tin} tout={showOpt m.tout} name={m.name} descr={m.description}"
+  s!"hs={m.hsDim} dt={showOptRat m.dt} tin={showOpt m.tin} tout={showOpt m.tout} name={hexEncode m.name} descr={hexEncode m.description}"
 
 /-- what the harness observes on an imported FileProcessTensor -/
 def showFileView (p : FilePT) (warned : Bool) : String :=
@@ -247,20 +284,36 @@ def showW (r : Except OpenErr W) : String :=
   | .ok w => "ok trace=" ++ showTrace w.trace ++ " disk=" ++ showDisk w.d
   | .error e => "err " ++ showOpenErr e
 
-def crashReport (F : Flags) (d0 : Disk) (r : Except OpenErr W) : String :=
+def crashReport (F : Flags) (d0 : Disk) (r : Except OpenErr W) (unwind : List UnwindStep)
+    (removeable : Bool) (nCreate : Nat) : String :=
   match r with
   | .error e => "err " ++ showOpenErr e
   | .ok w =>
     let js := List.range (w.trace.length + 1)
     let states := js.map (fun j => replay d0 (w.trace.take j))
-    "ok trace=" ++ showTrace w.trace ++ " outcomes=" ++ ",".intercalate (states.map (fun d => showOutcome (readOutcome F d))) ++
+    let exc := js.map (fun k => excState F removeable unwind d0 w.trace nCreate k)
+    "ok trace=" ++ showTrace w.trace ++
+    " excoutcomes=" ++ ",".intercalate (exc.map (fun d => showOutcome (readOutcome F d))) ++
+    " outcomes=" ++ ",".intercalate (states.map (fun d => showOutcome (readOutcome F d))) ++
+    " excdumps=" ++ (if unwind.isEmpty then "same" else "#".intercalate (exc.map showDisk)) ++
     " dumps=" ++ "#".intercalate (states.map showDisk)
+
+/-- number of operations the constructor issues, and `_removeable`, for a writing mode -/
+def ctorInfo (F : Flags) (env : Env) (d0 : Disk) (mode : String) (m : Meta) (hasfn : Bool) :
+    Nat × Bool :=
+  let n := match createFile F env d0 mode m with
+    | .ok w => w.trace.length
+    | .error _ => 0
+  let rm := match F.modeFlags mode with
+    | some (wr, ovw) => F.removeable wr ovw hasfn
+    | none => false
+  (n, rm)
 
 def step (F : Flags) (line : String) : String :=
   let ws := words line
   match ws with
   | "export" :: _ | "crash-export" :: _ | "roundtrip" :: _ =>
-    match parseSimple? ws, (kv ws "ovw").bind parseBool?, kv ws "version" with
+    match parseSimple? ws, (kv ws "ovw").bind parseBool?, (kv ws "version").bind hexDecode? with
     | some pt, some ovw, some ver =>
       let env : Env := ⟨ver⟩
       match diskOf F env ws with
@@ -268,7 +321,9 @@ def step (F : Flags) (line : String) : String :=
       | some d0 =>
         let r := exportW F env d0 pt ovw
         if ws.head? == some "export" then showW r
-        else if ws.head? == some "crash-export" then crashReport F d0 r
+        else if ws.head? == some "crash-export" then
+          let ci := ctorInfo F env d0 (F.exportMode ovw) pt.info true
+          crashReport F d0 r F.exportUnwind ci.2 ci.1
         else
           match r with
           | .error e => "err " ++ showOpenErr e
@@ -286,7 +341,7 @@ def step (F : Flags) (line : String) : String :=
     | _, _, _ => "bad-op"
   | "writer" :: _ | "crash-writer" :: _ | "writer-view" :: _ =>
     match parseMeta? ws, (kv ws "cmds").bind parseCmds?, kv ws "mode",
-          (kv ws "close").bind parseBool?, kv ws "version" with
+          (kv ws "close").bind parseBool?, (kv ws "version").bind hexDecode? with
     | some m, some cmds, some mode, some close, some ver =>
       let env : Env := ⟨ver⟩
       match diskOf F env ws with
@@ -294,13 +349,45 @@ def step (F : Flags) (line : String) : String :=
       | some d0 =>
         let r := writerW F env d0 mode m cmds close
         if ws.head? == some "writer" then showW r
-        else if ws.head? == some "crash-writer" then crashReport F d0 r
+        else if ws.head? == some "crash-writer" then
+          let ci := ctorInfo F env d0 mode m true
+          let unwind := if kv ws "unwind" == some "pttempo" then F.ptTempoUnwind else []
+          crashReport F d0 r unwind ci.2 ci.1
         else match r with
           | .error e => "err " ++ showOpenErr e
           | .ok w => match importFile F w.d with
             | .ok (p, warned) => "ok " ++ showFileView p warned
             | .error e => "err " ++ showImportErr e
     | _, _, _, _, _ => "bad-op"
+  | "writer-meta" :: _ | "writer-meta-view" :: _ =>
+    match parseMeta? ws, (kv ws "cmds").bind parseMCmds?, kv ws "mode", (kv ws "version").bind hexDecode? with
+    | some m, some cmds, some mode, some ver =>
+      let env : Env := ⟨ver⟩
+      match diskOf F env ws with
+      | none => "bad-op"
+      | some d0 =>
+        match writerM F env d0 mode m cmds true with
+        | .error e => "err " ++ showOpenErr e
+        | .ok st =>
+          let live := s!"live={hexEncode st.2.name},{hexEncode st.2.description}"
+          if ws.head? == some "writer-meta" then
+            s!"ok {live} trace={showTrace st.1.trace} disk={showDisk st.1.d}"
+          else match kv ws "type" with
+            | some "simple" => (match importSimple F st.1.d with
+              | .ok (s, warned) => s!"ok {live} " ++ showSimpleView s warned
+              | .error e => "err " ++ showImportErr e)
+            | _ => (match importFile F st.1.d with
+              | .ok (p, warned) => s!"ok {live} " ++ showFileView p warned
+              | .error e => "err " ++ showImportErr e)
+    | _, _, _, _ => "bad-op"
+  | "simple-meta" :: _ =>
+    -- the same assignments on an in-memory object
+    match parseMeta? ws, (kv ws "cmds").bind parseMCmds? with
+    | some m, some cmds =>
+      let m' := cmds.foldl (metaCmd F) m
+      s!"live={hexEncode m'.name},{hexEncode m'.description}"
+    | _, _ => "bad-op"
+  | ["ptinit-same"] => if F.ptTempoFileInit == F.ptTempoSimpleInit then "1" else "0"
   | "simple-sets" :: _ =>
     -- the same set_* calls on a SimpleProcessTensor
     match parseMeta? ws, (kv ws "cmds").bind parseCmds? with
@@ -333,7 +420,7 @@ def step (F : Flags) (line : String) : String :=
     | some wr, some v => if F.closeReset wr v then "1" else "0"
     | _, _ => "bad-op"
   | "open" :: _ =>
-    match kv ws "mode", (kv ws "hasfn").bind parseBool?, kv ws "version" with
+    match kv ws "mode", (kv ws "hasfn").bind parseBool?, (kv ws "version").bind hexDecode? with
     | some mode, some hasfn, some ver =>
       let env : Env := ⟨ver⟩
       match diskOf F env ws with
